@@ -37,6 +37,8 @@ def run(ctx):
     # every ordered pair of features x composition mode (spec/FamPairs.tla), without the world features; quick: every 5th
     pairs = sorted((c for c in progflow.pair_cases(ctx) if "world" not in c["prog"]), key=lambda c: c["id"])
     cases += pairs[::(5 if quick else 1)]
+    # every control skeleton up to a size (spec/FamSkel.tla) - label allocation for every nesting and sequencing; thorough: size 3 at top level only
+    cases += [c for c in progflow.skel_cases(ctx) if quick or not (c["id"].startswith("skel/3/") and "/func/" in c["id"])]
     cases += comprun.accepted(ctx, False, 4 if quick else 1) + comprun.accepted(ctx, True, 4 if quick else 1)
     # the repository's own test programs: their stated expectations calibrate the cmd.exe model
     repo = corpus.cases(ctx, ("C01", "C02", "C03"))
